@@ -50,6 +50,11 @@ theorem wk_spin {s s' : State} {r : Role} (hc : CInv s) (hr : RInv s) (ha : WA s
   cases r <;> wk_step2 hc hr ha hw hd hi h [stepSpin]
 
 set_option maxHeartbeats 4000000 in
+theorem wk_deadline {s s' : State} {r : Role} (hc : CInv s) (hr : RInv s) (ha : WA s) (hw : WC s) (hd : WD s) (hi : WK s)
+    (h : stepDeadline s r = some s') : WK s' := by
+  cases r <;> wk_step2 hc hr ha hw hd hi h [stepDeadline]
+
+set_option maxHeartbeats 4000000 in
 theorem wk_ldClosed {s s' : State} {r : Role} (hc : CInv s) (hr : RInv s) (ha : WA s) (hw : WC s) (hd : WD s) (hi : WK s)
     (h : stepLdClosed s r = some s') : WK s' := by
   cases r <;> wk_step2 hc hr ha hw hd hi h [stepLdClosed]
